@@ -221,8 +221,18 @@ impl Gen {
                 }
             }
             (12, _, _) => {
-                self.hit("j:zero");
-                self.rng.range(-800, 800)
+                if self.rng.chance(1, 2) {
+                    self.hit("j:zero");
+                    self.rng.range(-800, 800)
+                } else {
+                    // a day of a year at which the number of digits of the year changes (or its
+                    // sign): 0, ±1, ±9, ±10, ±99, ±100, ±999, ±1000, ±9999, ±10000, …
+                    self.hit("j:year-digits");
+                    let p = 10i64.pow(self.rng.range(0, 6) as u32);
+                    let y = *self.rng.pick(&[0, p - 1, p, -(p - 1), -p, 1, -1]);
+                    let rule = if self.rng.chance(1, 2) { Rule::Julian } else { Rule::Gregorian };
+                    oracle::year_start(rule, y) + self.rng.range(0, 365)
+                }
             }
             (13, _, _) => {
                 self.hit("j:cycle-anchor");
@@ -619,6 +629,19 @@ fn cli_positional(g: &mut Gen, oc: &OCal) -> String {
         }
         9 => format!("{}", g.rng.range(-3000000, -1)),
         10 => g.date_string(oc),
+        11 if g.rng.chance(1, 2) => {
+            // a long argument (error messages may abbreviate or align what they echo) with one
+            // multi-byte character somewhere in it
+            g.hit("cli:long-arg");
+            let n = g.rng.range(20, 70) as usize;
+            let at = g.rng.range(0, n as i64) as usize;
+            let fill = *g.rng.pick(&['1', 'x', '-', '9']);
+            let mb = *g.rng.pick(&["\u{e9}", "\u{4e2d}", "\u{1f600}", "\u{17f}"]);
+            let mut s: String = std::iter::repeat(fill).take(at).collect();
+            s.push_str(mb);
+            s.extend(std::iter::repeat(fill).take(n - at));
+            if fill == '-' { format!("x{s}") } else { s }
+        }
         _ => (*g.rng.pick(&["+5", "-0", "0", "-", "", " 5", "5 ", "2147483648", "-2147483649", "1-1", "-1-1-1", "abc"])).to_string(),
     }
 }
@@ -809,6 +832,15 @@ pub fn emit(prop: &str, g: &mut Gen, out: &mut Vec<String>) {
                 ops.push(op);
             }
             push(out, format!("hist {ct} {j} {}", ops.join(" ")));
+            // "equality, ordering and hashing of dates never disagree": the date the history ends
+            // with against the same day reached directly, in the same and in another calendar
+            if g.rng.chance(1, 3) {
+                let keep: Vec<String> = ops.iter().filter(|o| !matches!(o.as_str(), "s" | "p" | "l" | "g" | "L" | "E" | "Df" | "Dl")
+                    && !o.starts_with(|c: char| "LEAa".contains(c))).cloned().collect();
+                let (c2, _) = if g.rng.chance(1, 2) { (ct.clone(), oc) } else { g.cal() };
+                let j2 = if g.rng.chance(2, 3) { j } else { clamp(j + g.rng.range(-1, 1), I32_MIN, I32_MAX) };
+                push(out, format!("cmp_hist {ct} {j} {} / {c2} {j2}", keep.join(" ")).replace("  ", " "));
+            }
         }
         "C07" => {
             let (ct, oc) = g.cal();
@@ -860,7 +892,7 @@ pub fn emit(prop: &str, g: &mut Gen, out: &mut Vec<String>) {
                     push(out, format!("iter {k} {ct} {j} {}", g.rng.below(30)));
                     // the same iterators driven through the provided methods (nth, skip/step_by)
                     let n = 1 + g.rng.below(6);
-                    let ops: String = (0..n).map(|_| *g.rng.pick(&['x', 'x', 'n', 'm', 'k', 'S'])).collect();
+                    let ops: String = (0..n).map(|_| *g.rng.pick(&['x', 'x', 'n', 'm', 'k', 'S', 'H'])).collect();
                     push(out, format!("iterx {k} {ct} {j} {ops}x"));
                 }
                 _ => {
@@ -869,8 +901,16 @@ pub fn emit(prop: &str, g: &mut Gen, out: &mut Vec<String>) {
                     let j = if k.ends_with("later") { I32_MAX - g.rng.range(0, 5) } else { I32_MIN + g.rng.range(0, 5) };
                     push(out, format!("iter {k} {ct} {j} 8"));
                     // a jump past the limit, then next(): the iterator has ended and stays ended
-                    let ops: String = (0..3).map(|_| *g.rng.pick(&['x', 'n', 'm', 'k', 'S'])).collect();
+                    let ops: String = (0..3).map(|_| *g.rng.pick(&['x', 'n', 'm', 'k', 'S', 'C', 'Z', 'X', 'W', 'H'])).collect();
                     push(out, format!("iterx {k} {ct} {j} {ops}xx"));
+                    // size_hint at either end of the range, whichever way the iterator runs
+                    if g.rng.chance(1, 2) {
+                        let e = *g.rng.pick(&[I32_MIN, I32_MIN + 1, I32_MAX - 1, I32_MAX]);
+                        push(out, format!("iterx {k} {ct} {e} HxHxH"));
+                    }
+                    // count / last / max / min / size_hint in every state on the way to the limit
+                    let ops: String = (0..7).map(|_| format!("x{}", *g.rng.pick(&["C", "Z", "X", "W", "H", ""]))).collect();
+                    push(out, format!("iterx {k} {ct} {j} {ops}"));
                 }
             }
         }
@@ -1009,7 +1049,26 @@ pub fn emit(prop: &str, g: &mut Gen, out: &mut Vec<String>) {
                     2 => base.to_lowercase(),
                     3 => base.chars().map(|c| if g.rng.chance(1, 2) { c.to_ascii_uppercase() } else { c.to_ascii_lowercase() }).collect(),
                     4 => format!("{base} "),
-                    5 => base.replace('a', "á").replace('s', "ſ").replace('k', "\u{212A}"),
+                    5 => {
+                        // ONE character replaced by a non-ASCII character whose Unicode case mapping
+                        // collides with it (long s, dotless / dotted i, Kelvin sign, st / fi
+                        // ligatures): the rest of the name stays intact
+                        let subs: [(&str, &str); 10] = [
+                            ("s", "\u{17F}"), ("S", "\u{17F}"), ("i", "\u{131}"), ("I", "\u{130}"), ("k", "\u{212A}"),
+                            ("K", "\u{212A}"), ("st", "\u{FB06}"), ("fi", "\u{FB01}"), ("a", "\u{E1}"), ("ss", "\u{DF}"),
+                        ];
+                        let cands: Vec<(usize, &str, &str)> = subs
+                            .iter()
+                            .flat_map(|(a, b)| base.match_indices(a).map(move |(i, _)| (i, *a, *b)))
+                            .collect();
+                        if cands.is_empty() {
+                            base.replace('a', "á")
+                        } else {
+                            let (i, a, b) = *g.rng.pick(&cands);
+                            let cased = if g.rng.chance(1, 3) { base.to_lowercase() } else { base.to_string() };
+                            format!("{}{}{}", &cased[..i], b, &cased[i + a.len()..])
+                        }
+                    }
                     6 => base.chars().take(g.rng.below(10) as usize).collect(),
                     _ => format!("{base}{}", *g.rng.pick(&["s", ".", "day", "\u{0}"])),
                 };
